@@ -149,8 +149,8 @@ def expanded(repo: Repo, f: FunctionInfo, depth: int = 2, keep=()):
         self.h(args)                      (expression statement)
         T = self.h(args)                  (callee: at most one `return`, as its last statement)
         return self.h(args)               (tail call: every return of the callee becomes a return of f)
-    for *private, single-use* callees (name starts with an underscore, one calling function in the repository -- the signature of an
-    extracted method; `keep` names callees a rule anchors on and wants to stay calls) without decorators other than staticmethod / classmethod, without yield / global / nonlocal / nested functions, not
+    for *private* callees (name starts with an underscore -- public methods are interface, not extracted code; `keep` names callees a
+    rule anchors on and wants to stay calls) without decorators other than staticmethod / classmethod, without yield / global / nonlocal / nested functions, not
     recursive.  Parameters are bound by `p = arg` assignments in front (none when the argument is the same name); callee locals that
     clash with names of f are renamed.  Returns a FunctionDef node with parent links (its own parent is f.node's parent); the original
     tree is untouched.  Callee statements keep their own line numbers."""
@@ -175,8 +175,6 @@ def expanded(repo: Repo, f: FunctionInfo, depth: int = 2, keep=()):
         elif isinstance(call.func, ast.Name):
             h = next((k for k in repo.functions if k.module is g.module and k.cls is None and k.name == call.func.id), None)
         if h is None or h.node is f.node or not h.name.startswith("_") or h.name in keep:
-            return None
-        if len(callers_of(repo, h)) != 1:
             return None
         decos = [src(d) for d in h.node.decorator_list]
         if any(d not in ("staticmethod", "classmethod") for d in decos):
@@ -342,22 +340,34 @@ def expanded(repo: Repo, f: FunctionInfo, depth: int = 2, keep=()):
 
 
 def callers_of(repo: Repo, f: FunctionInfo) -> List[FunctionInfo]:
-    """functions of the same class (through self./cls./ClassName.) or the same module (bare name) that mention f by name
-    (calls and references such as map(self._h, xs)); a private helper's callers are where its body logically belongs"""
+    """functions that mention f by name: through self./cls./ClassName. in a class whose hierarchy resolves the name to f (so a helper of a
+    base class is found from its subclasses), or by bare name in a module where the name resolves to f (calls and references such as
+    map(self._h, xs)); a private helper's callers are where its body logically belongs"""
     idx = getattr(repo, "_callers_idx", None)
     if idx is None:
         idx = {}
         for g in repo.functions:
             for x in walk_no_nested(g.node):
+                h = None
                 if isinstance(x, ast.Attribute) and isinstance(x.value, ast.Name) and g.cls is not None and x.value.id in ("self", "cls", g.cls.name):
-                    idx.setdefault((g.relpath, g.cls.name, x.attr), []).append(g)
+                    h = g.cls.find_method(x.attr)
+                    if h is None:
+                        # defined only in subclasses (template method): every subclass definition is a candidate
+                        for sub in repo.subclasses(g.cls):
+                            hm = sub.methods.get(x.attr)
+                            if hm is not None:
+                                idx.setdefault(id(hm.node), []).append(g)
                 elif isinstance(x, ast.Name) and isinstance(x.ctx, ast.Load):
-                    idx.setdefault((g.relpath, "", x.id), []).append(g)
+                    try:
+                        r = repo.resolve_name(g.module, x.id)
+                    except Exception:
+                        r = None
+                    if r and r[0] == "func":
+                        h = r[1]
+                if h is not None:
+                    idx.setdefault(id(h.node), []).append(g)
         repo._callers_idx = idx  # type: ignore
-    if f.cls is not None:
-        out = list(idx.get((f.relpath, f.cls.name, f.name), []))
-    else:
-        out = list(idx.get((f.relpath, "", f.name), []))
+    out = idx.get(id(f.node), [])
     seen, res = set(), []
     for g in out:
         if g.node is not f.node and id(g.node) not in seen:
